@@ -413,4 +413,24 @@ example : ∃ m, lrefrU[1]? = some m ∧ m.resolves [[55]] (.str [49]) = true :=
   let h := (union_validate_iff lrefrU [[55]] Generated.LYD_HINT_DATA [49] 1 (.str [49])).mp (by decide)
   ⟨h.choose, h.choose_spec.1, h.choose_spec.2.2.1⟩
 
+/-! ## why F412 has no small repair -/
+
+/-- the obvious repair of F412 — "values of different members with the same canonical string are equal": compare falls back to the
+    canonical strings and sort returns 0 for them, everything else as before -/
+def sortCanonEq (ms : List Plug) (a b : UVal) : Int :=
+  if a.idx != b.idx && canonU ms a == canonU ms b then 0 else sortU ms a b
+
+/-- … makes the order NON-transitive on stored values: in `union { string {length 1}; int16 }` the string "1" is then equal to the integer 1
+    (`"+1"`), the integer 1 is below the integer 2 (`"+2"`), but the string "1" is ABOVE the integer 2 (member order).  (libyang's own test
+    suite does not notice: it passes 119/119 with this change.)  A consistent order would have to be a function of the canonical string
+    alone, i.e. change the order of all union values; see notes/design/c03ext.md. -/
+theorem union_repair_by_canonical_equality_not_transitive :
+    ¬ ∀ (ms : List Plug), (∀ m ∈ ms, MLaws m) → ∀ a b c, UStored ms a → UStored ms b → UStored ms c →
+      sortCanonEq ms a b ≤ 0 → sortCanonEq ms b c ≤ 0 → sortCanonEq ms a c ≤ 0 := by
+  intro h
+  have := h f412U f412U_wf ⟨0, .str [49]⟩ ⟨1, .num 1⟩ ⟨1, .num 2⟩
+    ⟨Generated.LYD_HINT_DATA, [49], by decide⟩ ⟨Generated.LYD_HINT_DATA, [43, 49], by decide⟩ ⟨Generated.LYD_HINT_DATA, [43, 50], by decide⟩
+    (by decide) (by decide)
+  exact absurd this (by decide)
+
 end LyModel.Props.C03Union
